@@ -66,7 +66,7 @@ class Scheduler:
 
     def quiesce(self):
         """wait until the helper thread blocks in input() again or has finished"""
-        for _ in range(20000):
+        for _ in range(120000):     # up to a minute: the machine may be heavily loaded
             if self.waiting.is_set() or not self.real.is_alive():
                 return
             self.waiting.wait(0.0005)
